@@ -42,6 +42,7 @@ func WriteBinary(env *dsl.Environment, options packaging.CppCodegenOptions) erro
 #include "../yardl/detail/binary/serializers.h"
 `)
 	writeIsTriviallySerializableSpecializations(w, env)
+	writeCompatibilitySerializerMarkers(w, env)
 	writeUnionSerializers(w, env)
 	for _, ns := range env.Namespaces {
 		fmt.Fprintf(w, "namespace %s::binary {\n", common.NamespaceIdentifierName(ns.Name))
@@ -214,6 +215,110 @@ func writeIsTriviallySerializableSpecializations(w *formatting.IndentedWriter, e
 	w.WriteStringln("#pragma GCC diagnostic pop // #pragma GCC diagnostic ignored \"-Winvalid-offsetof\" ")
 	w.WriteStringln("#endif")
 	fmt.Fprintf(w, "} //namespace yardl::binary \n\n")
+}
+
+// The serializers for a previous version of a named type (an alias) have the current C++ type
+// in their signature, which may well be trivially serializable: `Id: float` that became
+// `Id: double` is read by ReadId_v0(stream, double&). Containers would copy raw bytes for such
+// an element type instead of calling the serializer, so these serializers are declared up
+// front and marked as compatibility serializers, and so are the serializers of fixed-length
+// vectors of such elements (`Id*3`), which are elements with a trivially serializable C++
+// type (std::array) themselves. (Records that changed are handled by not declaring them
+// trivially serializable at all.)
+func writeCompatibilitySerializerMarkers(w *formatting.IndentedWriter, env *dsl.Environment) {
+	for _, ns := range env.Namespaces {
+		var changes []dsl.DefinitionChange
+		marked := make(map[dsl.TypeDefinition]bool)
+		for _, versionLabel := range ns.Versions {
+			for _, change := range ns.DefinitionChanges[versionLabel] {
+				if _, ok := change.LatestDefinition().(*dsl.NamedType); !ok {
+					continue
+				}
+				if _, ok := change.(*dsl.EnumChange); ok {
+					continue
+				}
+				if len(change.PreviousDefinition().GetDefinitionMeta().TypeParameters) > 0 {
+					continue
+				}
+				changes = append(changes, change)
+				marked[change.PreviousDefinition()] = true
+			}
+		}
+		if len(changes) == 0 {
+			continue
+		}
+
+		// fixed-length vectors of marked element types, anywhere in the previous versions
+		var isMarked func(t dsl.Type) bool
+		isMarked = func(t dsl.Type) bool {
+			switch t := t.(type) {
+			case *dsl.SimpleType:
+				return marked[t.ResolvedDefinition]
+			case *dsl.GeneralizedType:
+				if vec, ok := t.Dimensionality.(*dsl.Vector); ok && vec.Length != nil {
+					return isMarked(t.ToScalar())
+				}
+				if t.Dimensionality == nil && t.Cases.IsSingle() {
+					return isMarked(t.Cases[0].Type)
+				}
+			}
+			return false
+		}
+		var arraySerializers []string
+		seen := make(map[string]bool)
+		collect := func(root dsl.Node) {
+			dsl.Visit(root, func(self dsl.Visitor, node dsl.Node) {
+				if node == nil {
+					return
+				}
+				if t, ok := node.(*dsl.GeneralizedType); ok && t.Dimensionality != nil && isMarked(t) {
+					for _, write := range []bool{true, false} {
+						if f := typeRwFunction(t, write); !seen[f] {
+							seen[f] = true
+							arraySerializers = append(arraySerializers, f)
+						}
+					}
+				}
+				self.VisitChildren(node)
+			})
+		}
+		for _, versionLabel := range ns.Versions {
+			for _, change := range ns.DefinitionChanges[versionLabel] {
+				collect(change.PreviousDefinition())
+			}
+			for _, protocol := range ns.Protocols {
+				if protocolChange, ok := protocol.Versions[versionLabel]; ok && protocolChange != nil {
+					for _, stepChange := range protocolChange.StepChanges {
+						if stepChange != nil && stepChange.OldType() != nil {
+							collect(stepChange.OldType())
+						}
+					}
+				}
+			}
+		}
+
+		nsName := common.NamespaceIdentifierName(ns.Name)
+		fmt.Fprintf(w, "namespace %s::binary {\nnamespace {\n", nsName)
+		for _, change := range changes {
+			name := change.PreviousDefinition().GetDefinitionMeta().Name
+			typeSyntax := common.TypeDefinitionSyntax(change.LatestDefinition())
+			fmt.Fprintf(w, "[[maybe_unused]] void Write%s(yardl::binary::CodedOutputStream& stream, %s const& value);\n", name, typeSyntax)
+			fmt.Fprintf(w, "[[maybe_unused]] void Read%s(yardl::binary::CodedInputStream& stream, %s& value);\n", name, typeSyntax)
+		}
+		fmt.Fprintf(w, "} // namespace\n} // namespace %s::binary\n\n", nsName)
+
+		w.WriteStringln("namespace yardl::binary {")
+		for _, change := range changes {
+			name := change.PreviousDefinition().GetDefinitionMeta().Name
+			for _, verb := range []string{"Write", "Read"} {
+				fmt.Fprintf(w, "template <>\nstruct IsCompatibilitySerializer<&%s::binary::%s%s> : std::true_type {};\n", nsName, verb, name)
+			}
+		}
+		for _, f := range arraySerializers {
+			fmt.Fprintf(w, "template <>\nstruct IsCompatibilitySerializer<&%s> : std::true_type {};\n", f)
+		}
+		w.WriteStringln("} // namespace yardl::binary\n")
+	}
 }
 
 func writeIsTriviallySerializableSpecialization(w *formatting.IndentedWriter, t dsl.TypeDefinition) {
